@@ -102,11 +102,6 @@ def valueOp (op : String) (ks : List EK) (a b : List Int) : Option (Except Err R
 
 def bits (l : List Bool) : String := String.join (l.map fmtBool)
 
-def NaN : Int := 9
-def dLt (a b : Int) : Bool := a != NaN && b != NaN && decide (a < b)
-def dEq (a b : Int) : Bool := a != NaN && b != NaN && a == b
-def dCmp (a b : Int) : Spec.Ord3 :=
-  if a == NaN || b == NaN then .unordered else if a < b then .less else if b < a then .greater else .equiv
 def iLt (a b : Int) : Bool := decide (a < b)
 def iEq (a b : Int) : Bool := a == b
 
@@ -214,8 +209,8 @@ def step (st : DState) (l : Line) : DState × String :=
         out (bits (Spec.modelRels iEq iEq iLt iLt (x, y) (u, v)))
             (bits (Spec.pairRels iEq iEq (Spec.synth3 iLt) (Spec.synth3 iLt) (x, y) (u, v)))
       | some "dbl" =>
-        out (bits (Spec.modelRels dEq dEq dLt dLt (x, y) (u, v)))
-            (bits (Spec.pairRels dEq dEq dCmp dCmp (x, y) (u, v)))
+        out (bits (Spec.modelRels Spec.dEq Spec.dEq Spec.dLt Spec.dLt (x, y) (u, v)))
+            (bits (Spec.pairRels Spec.dEq Spec.dEq Spec.dCmp Spec.dCmp (x, y) (u, v)))
       | _ => bad
     | some "eq", some a, some b =>
       if l.op != "tuple" || a.length != b.length then bad
